@@ -31,7 +31,7 @@ def obligations(tier):
 
 
 EXPLANATION = 'C12: RCU lock-free queue'
-OUTSIDE = 'quick tier: one thread, and two threads each doing one enqueue and one dequeue within 3 rounds (safety); the bounded-completion twin, 3 threads and TSO are thorough-tier obligations that need 15-50 minutes or more than 20 GB and were not all run to a verdict; 4 threads; node re-enqueue after a grace period; the real call_rcu (C03) - a harness call_rcu defers callbacks to the end of the run'
+OUTSIDE = 'quick tier: one thread, and two threads each doing one enqueue and one dequeue within 3 rounds (safety); the bounded-completion twin of the two-thread query is a thorough-tier obligation (holds in 1596 s); 3 threads and TSO are registered in the thorough tier but gave no verdict inside 900 s / 20 GB; 4 threads; node re-enqueue after a grace period; the real call_rcu (C03) - a harness call_rcu defers callbacks to the end of the run'
 ASSUMPTIONS = ['queue_call_rcu = harness stub honouring the call_rcu contract (callback runs once, after all reader sections of the run ended)',
                'malloc/free of dummy nodes backed by a typed static pool with poisoning and single-free check (allocation never fails)']
 LEVEL_TEXT = ('Bounded model checking of the real cds_lfq enqueue/dequeue/init/destroy (incl. make_dummy, enqueue_dummy, rcu_free_dummy, free_dummy_cb) over all '
